@@ -24,6 +24,10 @@ def get_check(prop):
         from .buffers import BuffersCheck
 
         return BuffersCheck()
+    if prop == "C14":
+        from .toposort import TopoCheck
+
+        return TopoCheck()
     raise SystemExit(f"no check for {prop}")
 
 
